@@ -15,6 +15,7 @@ LEVEL = "exploration"
 
 NUMS = [0.0, 2.5, -2.5, 1e-10, -3.04e4]
 WINDOWS = [(10, 300), (-9999, 9999), (0, 0), (5, 41000)]
+WINDOWS_REAL = [(10.25, 300.75), (2.73, 154.5), (0.5, 0)]  # formats whose window fields are free text
 IDXS = [1, 99999]
 
 # reference code tables (transcribed from the format documentation, not from naunet)
@@ -100,7 +101,7 @@ def gen_cases(fmt, tier):
             w = WINDOWS[n % len(WINDOWS)]
             cases.append(mk(fmt, base_r, base_p, a, b, c, w[0], w[1], idx, code0, None))
             n += 1
-    for w in WINDOWS:
+    for w in WINDOWS + (WINDOWS_REAL if fmt in ("umist", "uclchem", "naunet", "krome") else []):
         cases.append(mk(fmt, base_r, base_p, 1e-10, 0.0, 0.0, w[0], w[1], 7, code0, None))
     return [c for c in cases if c is not None]
 
